@@ -1512,12 +1512,14 @@ class Stream(AbstractStream):
             else:
                 self.copy_flow(streams[0])
         else:
-            self.P = P = min([i.P for i in streams])
+            P = min([i.P for i in streams])
+            # Inlet enthalpies are taken at the inlet pressures (the receiver may be an inlet)
+            if energy_balance: H = sum([i.H for i in streams], Q)
+            self.P = P
             if conserve_phases:
                 phases = self.phase + ''.join([i.phase for i in others])
                 self.phases = phases
             if vle:
-                if energy_balance: H = sum([i.H for i in streams], Q)
                 self._imol.mix_from([i._imol for i in streams])
                 if energy_balance: 
                     self.vle(H=H, P=P)
@@ -1526,7 +1528,6 @@ class Stream(AbstractStream):
                 self.reduce_phases()
             else:
                 if energy_balance: 
-                    H = sum([i.H for i in streams], Q)
                     imols = [i._imol.copy() if i is self else i._imol for i in streams]
                     self._imol.mix_from(imols)
                     if conserve_phases: 
